@@ -162,6 +162,172 @@ func extractCloseShape(f *ast.File) (closeShape, error) {
 	return sh, nil
 }
 
+// ---- serf/serf.go: registerQueryResponse (registration + timer closure) and handleQueryResponse (step order)
+
+type timerShape struct {
+	regLocked, regStores, locked, deletes, closes, unconditional bool
+	timerArg                                                      string
+}
+
+func extractTimerShape(f *ast.File) (timerShape, error) {
+	var sh timerShape
+	fd := findFunc(f, "Serf", "registerQueryResponse")
+	if fd == nil || fd.Body == nil {
+		return sh, fmt.Errorf("(Serf).registerQueryResponse not found")
+	}
+	msh := methodLockShape(fd)
+	sh.regLocked = msh.lockCall == "Lock" && msh.deferred
+	for _, st := range fd.Body.List {
+		// an unlock at the top level of the method (the one inside the timer closure is the closure's own)
+		if squash(st) == "s.queryLock.Unlock()" {
+			sh.regLocked = false
+		}
+	}
+	var lit *ast.FuncLit
+	for _, st := range fd.Body.List {
+		t := squash(st)
+		if t == "s.queryResponse[resp.lTime] = resp" {
+			sh.regStores = true
+		}
+		if es, ok := st.(*ast.ExprStmt); ok {
+			if c, ok := es.X.(*ast.CallExpr); ok && squash(c.Fun) == "time.AfterFunc" && len(c.Args) == 2 {
+				sh.timerArg = squash(c.Args[0])
+				lit, _ = c.Args[1].(*ast.FuncLit)
+			}
+		}
+	}
+	if lit == nil {
+		return sh, fmt.Errorf("registerQueryResponse: time.AfterFunc(timeout, func() {…}) not found")
+	}
+	var top []string
+	sh.unconditional = true
+	for _, st := range lit.Body.List {
+		switch st.(type) {
+		case *ast.ExprStmt, *ast.DeferStmt:
+			top = append(top, squash(st))
+		default:
+			sh.unconditional = false // an if / return / loop: something in the closure is conditional
+			ast.Inspect(st, func(n ast.Node) bool {
+				if es, ok := n.(*ast.ExprStmt); ok {
+					top = append(top, "?"+squash(es))
+				}
+				return true
+			})
+		}
+	}
+	has := func(x string) bool {
+		for _, t := range top {
+			if t == x {
+				return true
+			}
+		}
+		return false
+	}
+	n := len(top)
+	sh.locked = n >= 2 && top[0] == "s.queryLock.Lock()" && (top[n-1] == "s.queryLock.Unlock()" || top[1] == "defer s.queryLock.Unlock()")
+	sh.deletes = has("delete(s.queryResponse, resp.lTime)")
+	sh.closes = has("resp.Close()")
+	return sh, nil
+}
+
+// handleQueryResponse: classified top-level statements and the two branches.
+func extractHandleOrder(f *ast.File) (order, ackBranch, respBranch []string, err error) {
+	fd := findFunc(f, "Serf", "handleQueryResponse")
+	if fd == nil || fd.Body == nil {
+		return nil, nil, nil, fmt.Errorf("(Serf).handleQueryResponse not found")
+	}
+	returnsOnly := func(b *ast.BlockStmt) bool {
+		if len(b.List) == 0 {
+			return false
+		}
+		_, ok := b.List[len(b.List)-1].(*ast.ReturnStmt)
+		return ok
+	}
+	branch := func(b *ast.BlockStmt, set, send string) ([]string, error) {
+		var out []string
+		for _, st := range b.List {
+			t := squash(st)
+			switch x := st.(type) {
+			case *ast.IfStmt:
+				if x.Init != nil && squash(x.Init) == "_, ok := query."+set+"[resp.From]" && squash(x.Cond) == "ok" && returnsOnly(x.Body) {
+					out = append(out, "dupCheck:"+set)
+				} else if squash(x.Cond) == "err != nil" {
+					// logging of a dropped reply
+				} else {
+					return nil, fmt.Errorf("handleQueryResponse: unsupported test %s", t)
+				}
+			case *ast.AssignStmt:
+				if strings.HasPrefix(t, "err := query."+send+"(") {
+					out = append(out, send)
+				} else {
+					return nil, fmt.Errorf("handleQueryResponse: unsupported statement %s", t)
+				}
+			case *ast.ExprStmt:
+				if !strings.HasPrefix(t, "metrics.") {
+					return nil, fmt.Errorf("handleQueryResponse: unsupported call %s", t)
+				}
+			default:
+				return nil, fmt.Errorf("handleQueryResponse: unsupported statement %s", t)
+			}
+		}
+		return out, nil
+	}
+	for _, st := range fd.Body.List {
+		t := squash(st)
+		switch x := st.(type) {
+		case *ast.ExprStmt:
+			switch t {
+			case "s.queryLock.RLock()":
+				order = append(order, "rlock")
+			case "s.queryLock.RUnlock()":
+				order = append(order, "runlock")
+			default:
+				return nil, nil, nil, fmt.Errorf("handleQueryResponse: unsupported call %s", t)
+			}
+		case *ast.AssignStmt:
+			if t != "query, ok := s.queryResponse[resp.LTime]" {
+				return nil, nil, nil, fmt.Errorf("handleQueryResponse: unsupported statement %s", t)
+			}
+			order = append(order, "lookup")
+		case *ast.IfStmt:
+			c := squash(x.Cond)
+			switch {
+			case c == "!ok" && returnsOnly(x.Body):
+				order = append(order, "missing")
+			case c == "query.id != resp.ID" && returnsOnly(x.Body):
+				order = append(order, "idCheck")
+			case c == "query.Finished()" && returnsOnly(x.Body):
+				order = append(order, "finished")
+			case c == "resp.Ack()" && x.Else != nil:
+				order = append(order, "dispatch")
+				eb, ok := x.Else.(*ast.BlockStmt)
+				if !ok {
+					return nil, nil, nil, fmt.Errorf("handleQueryResponse: unsupported else")
+				}
+				if ackBranch, err = branch(x.Body, "acks", "sendAck"); err != nil {
+					return nil, nil, nil, err
+				}
+				if respBranch, err = branch(eb, "responses", "sendResponse"); err != nil {
+					return nil, nil, nil, err
+				}
+			default:
+				return nil, nil, nil, fmt.Errorf("handleQueryResponse: unsupported test %s", t)
+			}
+		default:
+			return nil, nil, nil, fmt.Errorf("handleQueryResponse: unsupported statement %s", t)
+		}
+	}
+	return
+}
+
+func leanStrList(l []string) string {
+	var q []string
+	for _, x := range l {
+		q = append(q, fmt.Sprintf("%q", x))
+	}
+	return "[" + strings.Join(q, ", ") + "]"
+}
+
 func genQueryLocks(repo string) (string, error) {
 	_, f, err := parseFile(repo + "/serf/query.go")
 	if err != nil {
@@ -184,19 +350,35 @@ func genQueryLocks(repo string) (string, error) {
 		return "", fmt.Errorf("(QueryResponse).Finished not found")
 	}
 	_, flf, fdf := lockPrefix(fin, recvName(fin))
+	_, sf, err := parseFile(repo + "/serf/serf.go")
+	if err != nil {
+		return "", err
+	}
+	tm, err := extractTimerShape(sf)
+	if err != nil {
+		return "", err
+	}
+	order, ackB, respB, err := extractHandleOrder(sf)
+	if err != nil {
+		return "", err
+	}
 	ss := func(s sendShape) string {
 		return fmt.Sprintf("{ lockFirst := %v, deferred := %v, earlyUnlock := %v, closedTestInside := %v, sendInside := %v, callsOwnMethods := %v }",
 			s.lockFirst, s.deferred, s.earlyUnlock, s.closedTestInside, s.sendInside, s.callsOwnMethods)
 	}
 	var b strings.Builder
-	b.WriteString("-- GENERATED by /verif/extract from serf/query.go (QueryResponse: sendAck, sendResponse, Close, Finished) — do not edit.\n")
+	b.WriteString("-- GENERATED by /verif/extract from serf/query.go (QueryResponse: sendAck, sendResponse, Close, Finished) and serf/serf.go (registerQueryResponse, handleQueryResponse) — do not edit.\n")
 	b.WriteString("import SerfModel.Model.QueryRoute\nnamespace SerfModel.Gen.QueryLocks\nopen SerfModel.QueryRoute\n\n")
 	fmt.Fprintf(&b, "def sendAck : SendShape := %s\n", ss(ack))
 	fmt.Fprintf(&b, "def sendResponse : SendShape := %s\n", ss(resp))
 	fmt.Fprintf(&b, "def close : CloseShape := { lockFirst := %v, deferred := %v, earlyUnlock := %v, closedGuard := %v, setsClosed := %v, closesChannels := %v }\n",
 		cl.lockFirst, cl.deferred, cl.earlyUnlock, cl.closedGuard, cl.setsClosed, cl.closesChannels)
 	fmt.Fprintf(&b, "/-- `Finished` reads `closed` under closeLock (Lock first, deferred Unlock) -/\ndef finishedLocked : Bool := %v\n\n", flf && fdf)
-	b.WriteString("def shapes : Shapes := { sendAck := sendAck, sendResponse := sendResponse, close := close, finishedLocked := finishedLocked }\n\nend SerfModel.Gen.QueryLocks\n")
+	fmt.Fprintf(&b, "/-- serf/serf.go registerQueryResponse: the registration and the closure handed to time.AfterFunc -/\ndef timer : TimerShape := { regLocked := %v, regStores := %v, timerArg := %q, locked := %v, deletes := %v, closes := %v, unconditional := %v }\n\n",
+		tm.regLocked, tm.regStores, tm.timerArg, tm.locked, tm.deletes, tm.closes, tm.unconditional)
+	fmt.Fprintf(&b, "/-- serf/serf.go handleQueryResponse: classified statements in order, and the two branches of the dispatch -/\ndef handle : HandleShape := { order := %s, ackBranch := %s, respBranch := %s }\n\n",
+		leanStrList(order), leanStrList(ackB), leanStrList(respB))
+	b.WriteString("def shapes : Shapes := { sendAck := sendAck, sendResponse := sendResponse, close := close, finishedLocked := finishedLocked, timer := timer, handle := handle }\n\nend SerfModel.Gen.QueryLocks\n")
 	return b.String(), nil
 }
 
